@@ -136,6 +136,7 @@ func checkC08(c *Check) {
 		reportTypecheck(c, rs)
 		c.Floor("R-frag-typecheck", len(rs), 300)
 	}
+	checkWholeCompile(c, r)
 	bigGrammar(c, r)
 	ruleTypeThresholds(c, r)
 	importsDedup(c, r)
@@ -352,6 +353,13 @@ func gofmtRule(c *Check, r *Repo) {
 		switch x := n.(type) {
 		case *ast.CallExpr:
 			if se, ok := x.Fun.(*ast.SelectorExpr); ok {
+				if fn, ok := info.Uses[se.Sel].(*types.Func); ok && (fn.FullName() == "go/format.Node" || fn.FullName() == "go/format.Source") {
+					// go/format is gofmt's own formatting: parse with comments, sort imports, gofmt's printer configuration
+					sawPrint = true
+					if fn.Name() == "Source" {
+						sawParse = true
+					}
+				}
 				if fn, ok := info.Uses[se.Sel].(*types.Func); ok && fn.FullName() == "go/parser.ParseFile" && len(x.Args) == 4 {
 					sawParse = true
 					tv := info.Types[x.Args[3]]
@@ -373,8 +381,12 @@ func gofmtRule(c *Check, r *Repo) {
 					v, _ := constant.Int64Val(info.Types[kv.Value].Value)
 					switch kv.Key.(*ast.Ident).Name {
 					case "Mode":
-						if v != 6 { // printer.TabIndent | printer.UseSpaces
+						// gofmt prints with TabIndent|UseSpaces and, since Go 1.13, with number literals
+						// normalised (0XFF → 0xFF, 1E3 → 1e3): go/format's configuration, bit 1<<30 of the mode
+						if v&^(1<<30) != 6 {
 							bad = append(bad, fmt.Sprintf("printer mode %d is not gofmt's TabIndent|UseSpaces", v))
+						} else if v&(1<<30) == 0 {
+							bad = append(bad, "the printer does not normalise number literals as gofmt does: user code with a literal like 0XFF or 1E3 is copied as it is and gofmt -l lists the generated file (go/format.Node prints with gofmt's full configuration)")
 						}
 					case "Tabwidth":
 						if v != 8 {
@@ -390,10 +402,10 @@ func gofmtRule(c *Check, r *Repo) {
 		bad = append(bad, "Compile does not parse the generated text")
 	}
 	if !sawPrint {
-		bad = append(bad, "Compile does not print through go/printer.Config")
+		bad = append(bad, "Compile prints neither through go/format nor through go/printer.Config")
 	}
 	c.Decide(len(bad) == 0, "R-gofmt", "Compile/output is parsed with comments and printed with gofmt's configuration", r.pos(fd.Pos()),
-		"parser.ParseFile(…, ParseComments|…) then printer.Config{Mode: TabIndent|UseSpaces, Tabwidth: 8}.Fprint; both error paths return the error (C18 R-error-propagation)", strings.Join(bad, "; "))
+		"parser.ParseFile(…, ParseComments|…), then go/format (or a printer.Config with gofmt's mode, number literals normalised, and tab width 8); both error paths return the error (C18 R-error-propagation)", strings.Join(bad, "; "))
 }
 
 // importOrder: R-import-order — the import block is emitted in gofmt order
